@@ -435,12 +435,38 @@ func suiteC07(r *Run) {
 				if pan != "" {
 					r.Violate("http-server/framing/panic", "the stream decoder never panics", pan, sdesc, pan)
 				}
+				// independent of the model: a request body that ends inside a frame is never a clean end of stream
+				if cutInsideFrame(bd.b) && len(res) > 0 && res[len(res)-1] == "end:eof" {
+					r.Violate("http-server/framing/truncated-request-reported-complete", "the stream decoder on either side yields exactly the framed messages that were encoded or reports an error (a body cut inside a frame is an error, not end of stream)",
+						sprintf("request body of %d bytes ends inside a frame, yet the handler's RecvMsg reported a clean io.EOF", len(bd.b)), sdesc, strings.Join(res, " "))
+				}
 				if allocMB > hugeLimitMB {
 					r.Violate("http-server/framing/unbounded-alloc", "never allocates more than the fixed per-message limit on the strength of an unverified length prefix",
 						sprintf("decoding a %d-byte request body allocated %.0f MiB", len(bd.b), allocMB), sdesc, sprintf("%.0fMiB", allocMB))
 				}
 			}
 		}
+	}
+}
+
+// cutInsideFrame: does the body end inside a size preface or inside the payload a preface announced
+// (only for plausible, non-negative sizes within the limit)?
+func cutInsideFrame(b []byte) bool {
+	for {
+		if len(b) == 0 {
+			return false
+		}
+		if len(b) < 4 {
+			return true
+		}
+		sz := int32(uint32(b[0])<<24 | uint32(b[1])<<16 | uint32(b[2])<<8 | uint32(b[3]))
+		if sz < 0 || sz > 100*1024*1024 {
+			return false
+		}
+		if int(sz) > len(b)-4 {
+			return true
+		}
+		b = b[4+int(sz):]
 	}
 }
 
